@@ -21,6 +21,6 @@ CHECKS['C10'] = dict(
     runs=dict(quick=_c10_runs(dict(depth=3, ndims=3, aligns=2, faults=1), 2),
               thorough=_c10_runs(dict(depth=3, ndims=5, aligns=3, faults=1, misalign=1), 16, tus=('c10_cxx17',)) +
                        _c10_runs(dict(depth=4, ndims=3, aligns=2, faults=1), 16, tus=('c10_cxx14', 'c10_cxx17'), groups=['rgb8_sticky', 'counting_sticky', 'planar_sticky', 'rgb8_propagating'])),
-    witnesses_required=dict(all=['alloc_faults_fired', 'ctor_faults_fired', 'move_assign', 'recreate', 'recreate_reuse_expected', 'recreate_realloc_expected']),
+    witnesses_required=dict(all=['alloc_faults_fired', 'ctor_faults_fired', 'move_assign', 'recreate', 'recreate_reuse_expected', 'recreate_realloc_expected', 'post_fault_followups', 'recreate_retried_after_failed_recreate']),
     deadline=dict(quick=900, thorough=7200),
 )
